@@ -314,6 +314,13 @@ QXmppTask<QXmppMamManager::RetrieveResult> QXmppMamManager::retrieveMessages(con
             state.processedMessages.resize(state.messages.size());
             state.runningDecryptionJobs = state.messages.size();
 
+            // an empty result page has no decryption job that could finish the promise
+            if (state.messages.isEmpty()) {
+                state.finish();
+                d->ongoingRequests.erase(itr);
+                return;
+            }
+
             const auto size = state.messages.size();
             for (qsizetype i = 0; i < size; i++) {
                 const auto &message = state.messages.at(i);
